@@ -86,6 +86,12 @@ fn race_body_v(at: i64, pre_pending: Option<i64>, until: i64, relative: bool, va
             _ => None,
         })
         .collect();
+    // Clock gating (C18): the times passed to synchronize never decrease and no
+    // time is synchronised twice by the stepping calls of this scenario.
+    let syncs: Vec<i64> = log.iter().filter_map(|e| if let Ev::Sync(t) = e { Some(*t) } else { None }).collect();
+    for win in syncs.windows(2) {
+        assert!(win[1] > win[0], "[sync_monotone] synchronize({}) was called after synchronize({}) (all calls: {:?})", win[1], win[0], syncs);
+    }
     let mut last = i64::MIN;
     for e in &log {
         if let Ev::HS { t, .. } | Ev::TimeRead { t, .. } = e {
